@@ -156,6 +156,7 @@ func (c *Client) onMessage(raw []byte) {
 		c.w.lastActivity = c.w.sim.Now()
 		c.w.sim.Logf("%s <%d rid=%d n=%d", c.Label, m.Type, m.ReqID, len(raw))
 	}
+	c.w.ledger.observe(c, m)
 	c.View.apply(m)
 	if m.ReqID != 0 && m.Type != 0 {
 		if req, ok := c.own[m.ReqID]; ok {
